@@ -136,6 +136,7 @@ type tblRun struct {
 	act      TblAct
 	prev     map[int]theadS // by head id = number of resizes before its creation
 	lastTS   string
+	deferred []string // forced background steps that found no head: recorded after the inferred finishes
 	sinceTL  int
 	grow     int32
 	shrink   int32
@@ -368,6 +369,8 @@ func (r *tblRun) observe(wantK bool, forceTL bool) {
 				r.stats["tbl_bg_finish"]++
 			}
 		}
+		r.steps = append(r.steps, r.deferred...)
+		r.deferred = nil
 		ts := coqTS(s)
 		if ts != r.lastTS {
 			r.steps = append(r.steps, ts)
@@ -565,7 +568,18 @@ func runTable(tc TblCase, wantK bool) (out tblOutcome) {
 			ok := r.c.VerifInitBucket(a.D, a.I)
 			r.stats["tbl_bg_forced"]++
 			if wantK {
-				r.steps = append(r.steps, fmt.Sprintf("TB (TInit %d %d) %s", a.D, a.I, vlib.CoqBool(ok)))
+				// The only order-dependent part of a forced step is whether the head at that depth still
+				// exists: the chain is cut, at its far end only, when a background initBuckets finishes.
+				// "true": the head existed at the call, hence also in the model, which has not yet seen the
+				// finishes since the last snapshot -> before the steps inferred below.  "false": the head was
+				// gone at the call (or the index is out of range for it), and is still gone at the next
+				// snapshot -> after the inferred steps (the model's chain is then the snapshot's).
+				step := fmt.Sprintf("TB (TInit %d %d) %s", a.D, a.I, vlib.CoqBool(ok))
+				if ok {
+					r.steps = append(r.steps, step)
+				} else {
+					r.deferred = append(r.deferred, step)
+				}
 			}
 		case "yield":
 			for i := 0; i < a.N; i++ {
